@@ -60,6 +60,34 @@ class SZip(Sym):
         self.parts = parts
 
 
+class SGenSeq(Sym):
+    """Immutable sequence given by a count and an element function (elements may be tuples of values)."""
+
+    def __init__(self, count, element):
+        self.length = count
+        self.element = element
+
+    def at(self, i):
+        return self.element(i)
+
+
+class SOptList(Sym):
+    """`[None] * n` with symbolic n: a list whose slots are filled by later item stores.
+
+    isset[i] tells whether slot i has been assigned; arr holds the assigned values (sort fixed by the first store).
+    """
+    mutable = True
+
+    def __init__(self, length, kind=None, arr=None, isset=None):
+        self.length = length
+        self.elem_kind = kind
+        self.arr = arr
+        self.isset = isset if isset is not None else z3.K(INT, z3.BoolVal(False))
+
+    def at(self, i):
+        raise OutOfSubset('reading a slot of a [None] * n list')
+
+
 class SDict(Sym):
     """Insertion-ordered dict with symbolic size: keys Seq (distinct) + value function over keys.
 
@@ -100,6 +128,14 @@ def concrete_iter(interp, it):
         if n is None:
             return None
         return [simplify_value(SInt(it.start + i)) for i in range(n)]
+    if isinstance(it, SGenSeq):
+        n = _concrete_len(it.length)
+        if n is None:
+            return None
+        return [it.element(z3.IntVal(i)) for i in range(n)]
+    if isinstance(it, SObj):
+        d = _iter_delegate(interp, it)
+        return concrete_iter(interp, d)
     if isinstance(it, SEnumerate):
         inner = concrete_iter(interp, it.inner)
         if inner is None:
@@ -138,6 +174,10 @@ def symbolic_iter(interp, it):
         return it.length, (lambda k: it.at(k))
     if isinstance(it, SRange):
         return it.count, (lambda k: SInt(it.start + k))
+    if isinstance(it, SGenSeq):
+        return it.length, it.element
+    if isinstance(it, SObj):
+        return symbolic_iter(interp, _iter_delegate(interp, it))
     if isinstance(it, SEnumerate):
         c, el = symbolic_iter(interp, it.inner)
         return c, (lambda k: (SInt(V.to_int_term(it.start) + k), el(k)))
@@ -157,6 +197,24 @@ def symbolic_iter(interp, it):
             return d.keys.length, (lambda k: wrap(z3.Select(d.vals, d.keys.at(k).e)))
         return d.keys.length, (lambda k: (d.keys.at(k), wrap(z3.Select(d.vals, z3_of(d.keys.at(k))))))
     raise OutOfSubset(f'symbolic iteration over {type(it).__name__}')
+
+
+def _iter_delegate(interp, obj):
+    """Iteration over an instance whose class defines `__iter__` as `yield from <expr>`: the value of <expr>."""
+    import ast as _ast
+    from .extract import from_real
+    from .interp import Frame, _MISSING
+    it = interp._static_attr(obj.cls, '__iter__')
+    if it is _MISSING:
+        interp.raise_(TypeError, 'not iterable')
+    fi = from_real(it)
+    body = [st for st in fi.node.body if not (isinstance(st, _ast.Expr) and isinstance(st.value, _ast.Constant))]
+    if len(body) == 1 and isinstance(body[0], _ast.Expr) and isinstance(body[0].value, _ast.YieldFrom):
+        fr = Frame(fi)
+        fr.self_obj = obj
+        fr.locals[fi.node.args.args[0].arg] = obj
+        return interp.eval(body[0].value.value, fr)
+    raise OutOfSubset(f'generator {fi.qualname} is not of the form `yield from <expr>`')
 
 
 def _select_concrete(seq, k):
@@ -179,10 +237,17 @@ def fresh_like(interp, v, name: str):
     if isinstance(v, SSeq):
         srt = V._SORT_OF_KIND[v.elem_kind]
         return SSeq(v.kind, ctx.fresh(name + '.len', INT), ctx.fresh(name + '.data', z3.ArraySort(INT, srt)), v.elem_kind)
+    if isinstance(v, SOptList):
+        if v.elem_kind is None:
+            raise OutOfSubset(f'havoc of an untyped [None] * n list ({name}): give local_types in the loop contract')
+        return SOptList(v.length, v.elem_kind, ctx.fresh(name + '.data', z3.ArraySort(INT, V._SORT_OF_KIND[v.elem_kind])),
+                        ctx.fresh(name + '.isset', z3.ArraySort(INT, BOOL)))
     if v is None:
         return None
     if isinstance(v, dict):
         return {k: fresh_like(interp, x, f'{name}.{k}') for k, x in v.items()}
+    if isinstance(v, (list, tuple, set)) or isinstance(v, Sym):
+        return V.Opaque(f'havocked {type(v).__name__} {name}')
     raise OutOfSubset(f'cannot havoc a local of type {type(v).__name__} ({name})')
 
 
@@ -220,6 +285,8 @@ def binop(interp, op, a, b, node=None):
         return a + b
     if isinstance(a, list) and op == 'Mult' and isinstance(b, int):
         return a * b
+    if isinstance(a, list) and op == 'Mult' and isinstance(b, SInt) and a == [None]:
+        return SOptList(z3.If(b.e > 0, b.e, z3.IntVal(0)))
     if op == 'Mod' and isinstance(a, (str, SStr)):
         raise OutOfSubset('%-formatting')
     return V.binop(op, a, b)
@@ -354,6 +421,13 @@ def getattr(interp, obj, name, node=None):
             return SymMethod(obj, name)
     if isinstance(obj, SInt) and name in ('real', 'numerator'):
         return obj
+    if isinstance(obj, SRange):
+        if name == 'start':
+            return simplify_value(SInt(obj.start))
+        if name == 'stop':
+            return simplify_value(SInt(obj.stop))
+        if name == 'step':
+            return 1
     raise OutOfSubset(f'attribute {name!r} of {type(obj).__name__} (line {getattr_lineno(node)})')
 
 
@@ -613,6 +687,22 @@ def setitem(interp, obj, idx, v, node=None):
             obj.arr = z3.Lambda([j], z3.If(z3.Select(idx.arr, j), val, z3.Select(obj.arr, j)))
             return
         raise OutOfSubset('array store with this index type')
+    if isinstance(obj, SOptList):
+        it = _index_term(idx)
+        if it is None:
+            raise OutOfSubset('slice store on a list')
+        j = _bounds_fork(interp, obj, it, node, 'store-index')
+        k = kind_of(v)
+        if k == 'other':
+            raise OutOfSubset('storing a non-scalar into a [None] * n list')
+        if obj.arr is None:
+            obj.elem_kind = k
+            obj.arr = ctx.fresh('optlist', z3.ArraySort(INT, V._SORT_OF_KIND[k]))
+        if k != obj.elem_kind:
+            raise OutOfSubset('heterogeneous stores into a [None] * n list')
+        obj.arr = z3.Store(obj.arr, j, z3_of(v))
+        obj.isset = z3.Store(obj.isset, j, z3.BoolVal(True))
+        return
     if isinstance(obj, SSeq):
         it = _index_term(idx)
         if it is None:
@@ -651,12 +741,10 @@ def dictproxy_get(interp, dp, key, node=None):
         interp.raise_(KeyError, f'__dict__[{k!r}]')
     if obj.varstore is None:
         raise OutOfSubset('object has no variable store')
-    # the name must denote a variable of the store, not one of the separately modelled fields
-    guard = builtins.getattr(obj, 'var_guard', None)
+    # the name must denote a float variable of the store, not one of the separately modelled variables (wf precondition)
+    guard = builtins.getattr(obj, 'var_guard_obligation', None)
     if guard is not None:
-        g = guard(k)
-        if not interp.ctx.decide(g, f'var-name-is-variable@L{getattr_lineno(node)}'):
-            raise OutOfSubset('`_` + name may denote a reserved field (precondition of the container contracts)')
+        interp.ctx.prove(guard(k), 'variable-name-is-a-store-variable', 'safety', line=getattr_lineno(node) if isinstance(getattr_lineno(node), int) else 0)
     return obj.varstore.view(k)
 
 
@@ -855,7 +943,14 @@ def model_len(interp, args, kwargs, node):
         return simplify_value(SInt(x.count))
     if isinstance(x, SDict):
         return simplify_value(SInt(x.keys.length))
+    if isinstance(x, (SGenSeq, SOptList)):
+        return simplify_value(SInt(x.length))
     if isinstance(x, SObj):
+        from .interp import _MISSING, BoundMethod
+        from .extract import from_real
+        ln_m = interp._static_attr(x.cls, '__len__')
+        if ln_m is not _MISSING and from_real(ln_m) is not None:
+            return interp.call(BoundMethod(x, from_real(ln_m)), [], {}, node)
         ln = builtins.getattr(x, 'length', None)
         if ln is not None:
             return simplify_value(SInt(ln))
@@ -867,6 +962,8 @@ def model_len(interp, args, kwargs, node):
 
 @model(range)
 def model_range(interp, args, kwargs, node):
+    if any(kind_of(a) not in ('int', 'bool') for a in args):
+        interp.raise_(TypeError, 'range() of a non-integer')
     if len(args) == 1:
         return SRange(0, args[0])
     if len(args) == 2:
@@ -896,6 +993,9 @@ def model_list(interp, args, kwargs, node):
         return SSeq('list', x.length, x.arr, x.elem_kind)
     if isinstance(x, SDictView) and x.which == 'keys':
         return SSeq('list', x.d.keys.length, x.d.keys.arr, x.d.keys.elem_kind)
+    if isinstance(x, (SZip, SEnumerate, SRange, SGenSeq, SDictView)):
+        c, el = symbolic_iter(interp, x)
+        return SGenSeq(c, el)
     raise OutOfSubset(f'list() of {type(x).__name__}')
 
 
@@ -1107,7 +1207,7 @@ def model_np_isfinite(interp, args, kwargs, node):
     a = _as_sarr(interp, x)
     if a.dtype != 'float':
         raise OutOfSubset('isfinite on a non-float array')
-    return a.map(_finite, 'bool')
+    return a.map(_finite, 'bool', tag=('isfinite', a))
 
 
 @model(np.isnan)
@@ -1125,8 +1225,36 @@ def model_np_abs(interp, args, kwargs, node):
         return SFloat(z3.fpAbs(x.e))
     a = _as_sarr(interp, x)
     if a.dtype == 'float':
-        return a.map(lambda t: z3.fpAbs(t), 'float')
+        return a.map(lambda t: z3.fpAbs(t), 'float', tag=('abs', a))
     return a.map(lambda t: z3.If(t >= 0, t, -t), a.dtype)
+
+
+def _vector_fact(interp, a: SArr, is_all: bool):
+    """Recognise any(~isfinite(v)) and all(abs(u - v) < tol): return the named vector-level fact (its defining
+    instance is assumed at the same time, so nothing is lost and nothing beyond the NumPy contracts is assumed)."""
+    ctx = interp.ctx
+    tag = a.tag
+    if not is_all and tag and tag[0] == 'not':
+        inner = tag[1].tag
+        if inner and inner[0] == 'isfinite' and inner[1].dtype == 'float':
+            v = inner[1]
+            ctx.assume(V.all_finite_def(v.arr, v.length))
+            return SBool(z3.Not(V.ALL_FINITE(v.arr, v.length)))
+    if is_all and tag and tag[0] == 'isfinite' and tag[1].dtype == 'float':
+        v = tag[1]
+        ctx.assume(V.all_finite_def(v.arr, v.length))
+        return SBool(V.ALL_FINITE(v.arr, v.length))
+    if is_all and tag and tag[0] == 'cmp' and tag[1] == 'Lt' and isinstance(tag[2], SArr) and not isinstance(tag[3], SArr) \
+            and kind_of(tag[3]) == 'float':
+        ab = tag[2].tag
+        if ab and ab[0] == 'abs':
+            d = ab[1].tag
+            if d and d[0] == 'bin' and d[1] == 'Sub' and isinstance(d[2], SArr) and isinstance(d[3], SArr) \
+                    and d[2].dtype == 'float' and d[3].dtype == 'float':
+                u, v, tol = d[2], d[3], z3_of(tag[3])
+                ctx.assume(V.all_close_def(u.arr, v.arr, u.length, tol))
+                return SBool(V.ALL_CLOSE(u.arr, v.arr, u.length, tol))
+    return None
 
 
 def _quant(interp, a: SArr, is_all: bool):
@@ -1136,9 +1264,16 @@ def _quant(interp, a: SArr, is_all: bool):
         if not terms:
             return is_all
         return simplify_value(SBool((z3.And if is_all else z3.Or)(*terms)))
+    fact = _vector_fact(interp, a, is_all)
+    if fact is not None:
+        return fact
+    # name the quantified fact so that the SAT core can split on it without opening the definition
+    b = interp.ctx.fresh('all' if is_all else 'any', BOOL)
     if is_all:
-        return SBool(V.forall_range(0, a.length, lambda i: z3.Select(a.arr, i), 'all'))
-    return SBool(V.exists_range(0, a.length, lambda i: z3.Select(a.arr, i), 'any'))
+        interp.ctx.assume(b == V.forall_range(0, a.length, lambda i: z3.Select(a.arr, i), 'all'))
+    else:
+        interp.ctx.assume(b == V.exists_range(0, a.length, lambda i: z3.Select(a.arr, i), 'any'))
+    return SBool(b)
 
 
 @model(np.any)
@@ -1241,4 +1376,25 @@ def model_simplefilter(interp, args, kwargs, node):
 
 
 def construct(interp, cls, args, kwargs, node=None):
-    return NotImplemented
+    """Instantiate a class defined under the repository with symbolic arguments: a symbolic object whose
+    __init__ is interpreted from source; NamedTuple classes become field records."""
+    from .extract import from_real
+    from .interp import _MISSING
+    if issubclass(cls, tuple) and hasattr(cls, '_fields'):
+        names = list(cls._fields)
+        vals = dict(zip(names, args))
+        vals.update(kwargs)
+        defaults = builtins.getattr(cls, '_field_defaults', {})
+        for nme in names:
+            if nme not in vals:
+                if nme in defaults:
+                    vals[nme] = defaults[nme]
+                else:
+                    interp.raise_(TypeError, f'missing field {nme}')
+        return SObj(cls, vals, label=cls.__name__)
+    init = interp._static_attr(cls, '__init__')
+    if init is _MISSING or from_real(init) is None:
+        return NotImplemented
+    obj = SObj(cls, {}, label=cls.__name__)
+    interp.call_function(from_real(init), [obj] + list(args), kwargs, self_obj=obj)
+    return obj
